@@ -28,7 +28,8 @@
    gencommon/imports.go: imports map[path]*ImportDesc     imap, ihandler, calc_handler
      + shadowed slice; calcImports (map + shadowed           (calc_step, imap_set),
      slice), addNamed, UseName (range over the map:           add_named / add_named_h,
-     idempotent flag writes), GetActive (range + filter       use_name, get_active,
+     idempotent flag writes), unusedName (range: first     name_bound, unused_name,
+     alias match), GetActive (range + filter                use_name, get_active,
      inUse + shadowed in-use + sort.Slice by                  import_lt
      (PkgPath, Alias))
    gerror/gen/generate.go createErrorDesc:                gerror_fields, efield_lt
@@ -65,7 +66,8 @@ Definition desc_lt (a b : sdesc) : bool :=
 Definition gsort_type_descs (pi : list sdesc -> list sdesc) (ty : string) (fs : list fieldT)
   : option (list sdesc) :=
   let ds := collect ty fs in
-  if forallb (fun d => validate (sd_fields d)) ds then Some (pi ds) else None.
+  if forallb (fun d => validate (sd_fields d)) ds
+  then (if forms_ok ds then Some (pi ds) else None) else None.
 
 (* Generate.Parse over the -types list; pis: one iteration order per createSorterDesc call *)
 Fixpoint gsort_collect (pis : nat -> list sdesc -> list sdesc) (n : nat)
@@ -213,6 +215,25 @@ Definition use_name (pi : imap -> imap) (name : string) (h : ihandler) : ihandle
      ih_shadowed := map (fun d => if String.eqb (im_alias d) name then mark_used d else d) (ih_shadowed h) |}.
 Definition use_name_found (name : string) (h : ihandler) : bool :=
   existsb (fun d => String.eqb (im_alias d) name) (map snd (ih_imports h) ++ ih_shadowed h)%list.
+(* unusedName (fix 0af0409): `bound(candidate)` ranges over the imports map and returns true at
+   the first entry whose alias is the candidate, then looks at the shadowed specs and at the
+   package scope; the candidates are name, name2, name3, ... (itoa : strconv.Itoa) *)
+Definition name_bound (pi : imap -> imap) (scope : string -> bool) (cand : string) (h : ihandler)
+  : bool :=
+  existsb (fun kv => String.eqb (im_alias (snd kv)) cand) (pi (ih_imports h))
+  || existsb (fun d => String.eqb (im_alias d) cand) (ih_shadowed h)
+  || scope cand.
+Fixpoint unused_from (itoa : nat -> string) (pis : nat -> imap -> imap) (scope : string -> bool)
+         (name : string) (h : ihandler) (fuel n : nat) : string :=
+  match fuel with
+  | O => name ++ itoa n
+  | S f => if name_bound (pis n) scope (name ++ itoa n) h
+           then unused_from itoa pis scope name h f (S n) else name ++ itoa n
+  end.
+(* pis k: the iteration order of the k-th call of bound (k = 1 for the plain name) *)
+Definition unused_name (itoa : nat -> string) (pis : nat -> imap -> imap) (scope : string -> bool)
+           (name : string) (h : ihandler) (fuel : nat) : string :=
+  if name_bound (pis 1) scope name h then unused_from itoa pis scope name h fuel 2 else name.
 (* sort.Slice less: PkgPath, then Alias *)
 Definition import_lt (a b : import_desc) : bool :=
   if String.eqb (im_path a) (im_path b) then str_lt (im_alias a) (im_alias b)
